@@ -20,7 +20,7 @@ for j in $(seq 1 $N); do
       git apply $d/patch.diff 2>/dev/null
       res=""
       for p in $PROPS; do
-        /verif/check $p --repo $W --no-evidence > /tmp/mp_${j}_$p.out 2>&1; rc=$?
+        ${VERIF:-/verif}/check $p --repo $W --no-evidence > /tmp/mp_${j}_$p.out 2>&1; rc=$?
         if [ $rc -eq 1 ]; then res="$res $p:VIOL($(grep -o 'rule C[0-9]*\.R[0-9]*' /tmp/mp_${j}_$p.out | sort -u | sed 's/rule //' | tr '\n' ',' ))"; fi
         if [ $rc -eq 2 ]; then res="$res $p:ERR"; fi
       done
